@@ -660,16 +660,32 @@ impl NNum {
         match self {
             NNum::Int(a) => NInt::hash(&a, state),
             NNum::Rational(r) => {
-                // TODO: should we make rationals consistent with floats?
-                BigInt::hash(r.numer(), state);
-                if !r.denom().is_one() {
-                    BigInt::hash(r.denom(), state);
+                // must agree with == across levels: integral rationals hash like the integer,
+                // rationals that are exactly a float hash like that float
+                if r.denom().is_one() {
+                    NInt::hash(&NInt::from(r.numer().clone()), state);
+                } else {
+                    match r.to_f64() {
+                        Some(f)
+                            if f.is_finite()
+                                && BigRational::from_float(f).as_ref() == Some(&**r) =>
+                        {
+                            consistent_hash_f64(f, state)
+                        }
+                        _ => {
+                            BigInt::hash(r.numer(), state);
+                            BigInt::hash(r.denom(), state);
+                        }
+                    }
                 }
             }
             NNum::Float(f) => consistent_hash_f64(*f, state),
             NNum::Complex(z) => {
+                // a complex number with zero imaginary part equals its real part
                 consistent_hash_f64(z.re, state);
-                consistent_hash_f64(z.im, state);
+                if z.im != 0.0 {
+                    consistent_hash_f64(z.im, state);
+                }
             }
         }
     }
@@ -682,7 +698,26 @@ impl NNum {
 
 impl NNum {
     pub fn total_eq(&self, other: &Self) -> bool {
-        self == other || self.is_nan() && other.is_nan()
+        if self == other {
+            return true;
+        }
+        // NaN equals itself as a key; complex numbers containing NaN compare component-wise
+        fn parts(n: &NNum) -> Option<(f64, f64)> {
+            match n {
+                NNum::Float(f) => Some((*f, 0.0)),
+                NNum::Complex(z) => Some((z.re, z.im)),
+                _ => None,
+            }
+        }
+        fn feq(a: f64, b: f64) -> bool {
+            a == b || a.is_nan() && b.is_nan()
+        }
+        match (parts(self), parts(other)) {
+            (Some(a), Some(b)) if self.is_nan() && other.is_nan() => {
+                feq(a.0, b.0) && feq(a.1, b.1)
+            }
+            _ => false,
+        }
     }
 
     pub fn min<'a>(&'a self, other: &'a Self) -> &'a NNum {
